@@ -36,6 +36,7 @@ import (
 	"github.com/oxia-db/oxia/proto"
 	"github.com/oxia-db/oxia/server/kv"
 	"github.com/oxia-db/oxia/server/wal"
+	"github.com/oxia-db/oxia/server/wal/codec"
 )
 
 // FollowerController handles all the operations of a given shard's follower.
@@ -145,6 +146,10 @@ func NewFollowerController(config Config, namespace string, shardId int64, wf wa
 
 	if fc.term != wal.InvalidTerm {
 		fc.status = proto.ServingStatus_FENCED
+	}
+
+	if err = checkWalCoversCommitOffset(fc.wal, fc.db); err != nil {
+		return nil, multierr.Combine(err, fc.wal.Close(), fc.db.Close())
 	}
 
 	fc.db.EnableNotifications(fc.termOptions.NotificationsEnabled)
@@ -787,4 +792,21 @@ func (fc *followerController) DeleteShard(request *proto.DeleteShardRequest) (*p
 	}
 
 	return &proto.DeleteShardResponse{}, nil
+}
+
+// checkWalCoversCommitOffset refuses a log that ends below what the database has already applied.
+// Entries are applied only after they are synced in the local log, so a shorter log means that
+// the recovery of the log discarded, as if it were an uncommitted tail, damaged entries that
+// were in fact committed (the log is opened before the commit offset is known). An empty log
+// is fine: it is cleared when a snapshot is installed.
+func checkWalCoversCommitOffset(w wal.Wal, db kv.DB) error {
+	commitOffset, err := db.ReadCommitOffset()
+	if err != nil {
+		return err
+	}
+	if lastOffset := w.LastOffset(); lastOffset != wal.InvalidOffset && lastOffset < commitOffset {
+		return errors.Wrapf(codec.ErrDataCorrupted,
+			"the log ends at offset %d, below the commit offset %d of the database", lastOffset, commitOffset)
+	}
+	return nil
 }
